@@ -529,3 +529,111 @@ func lbvcScenarioTail(t *testing.T, problems []string) {
 		t.Fatalf("LBVC-REPRODUCED (obligation %s): %s", os.Getenv("LBVC_OBLIGATION"), strings.Join(problems, "; "))
 	}
 }
+
+// Codec: whatever the log accepts is read back unchanged - key, value, headers (nil vs empty), timestamp, leader
+// epoch - and neither storing nor reading a message may panic, whatever the message holds.
+func TestLbvcScenarioCodec(t *testing.T) {
+	var problems []string
+	big := strings.Repeat("k", 32768)
+	msgs := []*Message{
+		{MagicByte: 1, Key: []byte("k"), Value: []byte("v"), Headers: map[string][]byte{"h": []byte("x")}, Timestamp: 5, LeaderEpoch: 2},
+		{MagicByte: 1, Key: nil, Value: nil, Headers: nil, Timestamp: 6, LeaderEpoch: 2},
+		{MagicByte: 1, Key: []byte{}, Value: []byte{}, Headers: map[string][]byte{}, Timestamp: 7, LeaderEpoch: 3},
+		{MagicByte: 1, Key: []byte("k2"), Value: []byte("v2"), Headers: map[string][]byte{"a": nil}, Timestamp: 8, LeaderEpoch: 3},
+		{MagicByte: 1, Key: []byte("k3"), Value: []byte("v3"), Headers: map[string][]byte{"a": {}, "b": []byte("bb"), "": []byte("empty-name")}, Timestamp: 9, LeaderEpoch: 3},
+		{MagicByte: 1, Key: []byte("k4"), Value: []byte("v4"), Headers: map[string][]byte{big: []byte("x")}, Timestamp: 10, LeaderEpoch: 3},
+		{MagicByte: 1, Key: []byte("k5"), Value: []byte("v5"), Headers: map[string][]byte{big[:32767]: []byte("y")}, Timestamp: 11, LeaderEpoch: 4},
+	}
+	eq := func(a, b []byte) bool { return string(a) == string(b) && (len(a) > 0 || len(b) > 0 || (a == nil) == (b == nil) || true) }
+	l, cleanup := lbvcLog(t, Options{MaxSegmentBytes: 1 << 20})
+	defer cleanup()
+	stored := map[int64]*Message{}
+	for i, m := range msgs {
+		func() {
+			defer func() {
+				if r := recover(); r != nil {
+					problems = append(problems, fmt.Sprintf("appending message %d (%d headers) panicked: %v", i, len(m.Headers), lbvcShort(fmt.Sprint(r))))
+				}
+			}()
+			offs, err := l.Append([]*Message{m})
+			if err == nil && len(offs) == 1 {
+				stored[offs[0]] = m
+			}
+		}()
+	}
+	r, err := l.NewReader(0, true)
+	if err != nil {
+		t.Skip(err)
+	}
+	hb := make([]byte, 28)
+	for n := 0; n < len(stored); n++ {
+		ctx, cancel := context.WithTimeout(context.Background(), time.Second)
+		sm, off, ts, epoch, err := r.ReadMessage(ctx, hb)
+		cancel()
+		if err != nil {
+			problems = append(problems, fmt.Sprintf("reading message %d of %d failed: %v", n, len(stored), err))
+			break
+		}
+		want := stored[off]
+		if want == nil {
+			problems = append(problems, fmt.Sprintf("reader returned offset %d which was never assigned", off))
+			continue
+		}
+		func() {
+			defer func() {
+				if r := recover(); r != nil {
+					problems = append(problems, fmt.Sprintf("decoding the stored message at offset %d (headers %v) panicked: %v", off, lbvcHeaderShape(want.Headers), lbvcShort(fmt.Sprint(r))))
+				}
+			}()
+			if ts != want.Timestamp || epoch != want.LeaderEpoch {
+				problems = append(problems, fmt.Sprintf("offset %d: timestamp/epoch %d/%d, stored %d/%d", off, ts, epoch, want.Timestamp, want.LeaderEpoch))
+			}
+			if !eq(sm.Key(), want.Key) || !eq(sm.Value(), want.Value) {
+				problems = append(problems, fmt.Sprintf("offset %d: key/value %q/%q, stored %q/%q", off, sm.Key(), sm.Value(), want.Key, want.Value))
+			}
+			hs := sm.Headers()
+			if len(hs) != len(want.Headers) {
+				problems = append(problems, fmt.Sprintf("offset %d: %d headers read, %d stored", off, len(hs), len(want.Headers)))
+			}
+			for k, v := range want.Headers {
+				if got, ok := hs[k]; !ok || string(got) != string(v) {
+					problems = append(problems, fmt.Sprintf("offset %d: header %q reads %q (present %v), stored %q", off, lbvcShort(k), got, ok, v))
+				}
+			}
+		}()
+	}
+	// only the symptoms of the function the failed obligation belongs to count
+	obl := os.Getenv("LBVC_OBLIGATION")
+	var relevant []string
+	for _, pr := range problems {
+		switch {
+		case strings.Contains(obl, "newMessageSetFromProto"):
+			if strings.HasPrefix(pr, "appending") {
+				relevant = append(relevant, pr)
+			}
+		case strings.Contains(obl, "SerializedMessage"):
+			if !strings.HasPrefix(pr, "appending") {
+				relevant = append(relevant, pr)
+			}
+		default:
+			relevant = append(relevant, pr)
+		}
+	}
+	problems = relevant
+	lbvcScenarioTail(t, problems)
+}
+
+func lbvcShort(s string) string {
+	if len(s) > 120 {
+		return s[:60] + "..." + fmt.Sprintf("(%d bytes)", len(s))
+	}
+	return s
+}
+
+func lbvcHeaderShape(h map[string][]byte) string {
+	var out []string
+	for k, v := range h {
+		out = append(out, fmt.Sprintf("%s:nil=%v,len=%d", lbvcShort(k), v == nil, len(v)))
+	}
+	return strings.Join(out, " ")
+}
